@@ -214,7 +214,7 @@ def draw_center_spec(draw, k, n, new_size, lo, hi, row_tag="row"):
     return spec
 
 
-ARRAY_METRICS = ["euclidean", "manhattan", "cityblock", "chebyshev_py", "discrete_py", "euclidean_py"]
+ARRAY_METRICS = ["euclidean", "manhattan", "cityblock", "chebyshev_py", "discrete_py", "euclidean_py", "directed_py"]
 
 
 @st.composite
@@ -473,7 +473,10 @@ def predict_case(draw, max_train=14, max_new=10):
     distinct = sorted({tuple(r) for r in train})
     case = {"kind": "array", "est": est, "metric": metric, "dtype": dtype, "scale": scale, "train": train,
             "new": new, "seed": seed, "init": None, "n_clusters": None, "radius": None,
-            "new_as": draw(st.sampled_from(["C", "F", "strided"]))}
+            "new_as": draw(st.sampled_from(["C", "F", "strided"])),
+            # what the user's own function happens to be CALLED (def euclidean(X, y): ... in the user's script) says nothing
+            # about what it computes
+            "fn_name": draw(st.sampled_from([None, None, "euclidean", "manhattan", "rmsd", "metric"]))}
     numeric = draw(st.sampled_from(["plain"] * 4 + ["tiny", "offset"]))
     if numeric == "tiny" and dtype.startswith("float"):
         case["scale"] = scale = draw(st.sampled_from([1e-9, 1e-10]))
@@ -507,9 +510,19 @@ def predict_case(draw, max_train=14, max_new=10):
     return case
 
 
-def metric_arg(name):
-    """What the user passes as `metric=`: library names as strings, own metrics as callables."""
-    return R.PY_METRIC.get(name, name)
+def metric_arg(name, fn_name=None):
+    """What the user passes as `metric=`: library names as strings, own metrics as callables (plain functions whose
+    `__name__` is whatever the user chose)."""
+    if name not in R.PY_METRIC:
+        return name
+    inner = R.PY_METRIC[name]
+    if fn_name is None:
+        return inner
+
+    def user_function(X, y):
+        return inner(X, y)
+    user_function.__name__ = user_function.__qualname__ = fn_name
+    return user_function
 
 
 def check_center_finder(labels, dists, got, what):
@@ -546,6 +559,12 @@ def run_predict(case):
         Xnew = np.array(new, dtype=np.float32).reshape(len(new), n_atoms, 3)
         train = md.Trajectory(Xtr.copy(), top)
         newt = md.Trajectory(Xnew.copy(), top)
+        centred = case["seed"] % 3 == 0
+        if centred:
+            # a caller that superposed / centred its trajectories beforehand (mdtraj then carries cached per-frame traces
+            # along, also on slices); RMSD does not depend on where the frames sit
+            train.center_coordinates()
+            newt.center_coordinates()
         est = KCenters("rmsd", n_clusters=case["n_clusters"], cluster_radius=case["radius"])
         try:
             est.fit(train)
@@ -560,7 +579,8 @@ def run_predict(case):
         require(res.centers is est.centers_ or list(res.centers) == list(est.centers_),
                 "predict: result does not carry the fitted centers")
         used = len(set(int(x) for x in res.assignments))
-        cl = ["kind=md", "est=kcenters", "metric=rmsd", "stop=%s" % ("n" if case["radius"] is None else "radius"),
+        cl = ["kind=md", "est=kcenters", "metric=rmsd", "centred_beforehand=%s" % centred,
+              "stop=%s" % ("n" if case["radius"] is None else "radius"),
               "rel=%s" % ("more_centers" if len(Cx) > len(Xnew) else "fewer_or_equal")]
         return Info(len(Cx) >= 2 and used >= 2, cl)
 
@@ -568,7 +588,7 @@ def run_predict(case):
     off = case.get("offset", 0.0)
     Xtr = build_rows(case["train"], dtype, case["scale"], None, offset=off)
     Xnew = apply_layout(build_rows(case["new"], dtype, case["scale"], None, offset=off), case["new_as"])
-    m = metric_arg(case["metric"])
+    m = metric_arg(case["metric"], case.get("fn_name"))
     np.random.seed(seed % (2 ** 32))           # KMedoids proposals use the global numpy RNG
     refit = case.get("life") == "refit"
 
